@@ -109,6 +109,8 @@ def run_job(job):
             want_models=job.get("validate_every", 1),
         )
         eng.cut_on_undecided = bool(job.get("cut_on_undecided", False))
+        eng.xcheck_every = int(job.get("xcheck_every", 0))
+        eng.xcheck_ms = int(job.get("xcheck_ms", 5000))
         if job.get("optional"):
             eng.max_wall_s = float(os.environ.get("VERIF_JOB_WALL", job.get("max_wall_s", 300)))  # only best-effort jobs may stop early (reported as incomplete)
         funcs = set()
@@ -142,6 +144,11 @@ def run_job(job):
         out["functions"] = sorted(funcs)
         out["solver_time"] = eng.solver_time
         out["queries"] = eng.queries
+        out["xcheck"] = eng.xstats
+        for d in eng.xstats["disagree"][:5]:
+            out["problems"].append({"kind": "solver-disagreement", "error": d})
+        for d in eng.xstats["errors"][:5]:
+            out["problems"].append({"kind": "second-solver-error", "error": d})
         nfail = {}
         for r in results:
             out["decisions"] += len(r.trace or [])
@@ -278,8 +285,13 @@ def main(mod):
     t0 = time.time()
     pid = mod.PROPERTY
     jobs = mod.jobs(a.tier, seed)
+    # second solver (cvc5 binary): every k-th VC of every job is exported and re-decided
+    xk = int(os.environ.get("VERIF_XCHECK", getattr(mod, "XCHECK", {"quick": 400, "thorough": 50}).get(a.tier, 0)))
+    xms = int(os.environ.get("VERIF_XCHECK_MS", "4000" if a.tier == "quick" else "20000"))
     for j in jobs:
         j.setdefault("module", mod.__name__)
+        j.setdefault("xcheck_every", xk)
+        j.setdefault("xcheck_ms", xms)
     if a.only:
         jobs = [j for j in jobs if any(p_ in j["label"] for p_ in a.only.split("|"))]
     elif not getattr(mod, "NO_SELFCHECK", False):
@@ -348,7 +360,10 @@ def finish(mod, a, seed, t0, jobs, results, skipped):
     tot = {k: 0 for k in ("paths", "ok", "pruned", "cut", "vcs", "vc_ok", "validated", "queries", "decisions", "model_points")}
     solver_time = 0.0
     samples = []
+    xc = {"submitted": 0, "agree": 0, "no_answer": 0, "time_s": 0.0}
     for r in results:
+        for k in xc:
+            xc[k] += (r.get("xcheck") or {}).get(k, 0)
         for k in tot:
             tot[k] += r.get(k, 0)
         solver_time += r.get("solver_time", 0)
@@ -424,8 +439,8 @@ def finish(mod, a, seed, t0, jobs, results, skipped):
     for u in unconfirmed[:3]:
         print("  unconfirmed cex %s/%s conc=%s" % (u["job"], u["claim"], json.dumps(u.get("conc"))[:800]))
     print(
-        "%s %s: jobs=%d paths=%d (ok %d, pruned %d, cut %d) VCs=%d discharged=%d validated=%d solver=%.1fs wall=%.1fs -> exit %d"
-        % (pid, a.tier, len(results), tot["paths"], tot["ok"], tot["pruned"], tot["cut"], tot["vcs"], tot["vc_ok"], tot["validated"], solver_time, wall, rc)
+        "%s %s: jobs=%d paths=%d (ok %d, pruned %d, cut %d) VCs=%d discharged=%d validated=%d solver=%.1fs cvc5=%d/%d wall=%.1fs -> exit %d"
+        % (pid, a.tier, len(results), tot["paths"], tot["ok"], tot["pruned"], tot["cut"], tot["vcs"], tot["vc_ok"], tot["validated"], solver_time, xc["agree"], xc["submitted"], wall, rc)
     )
     slow = sorted(results, key=lambda r: -r.get("wall", 0))[:5]
     print("  slowest jobs: " + ", ".join("%s %.0fs/%dp" % (r["label"], r.get("wall", 0), r.get("paths", 0)) for r in slow))
@@ -467,6 +482,14 @@ def finish(mod, a, seed, t0, jobs, results, skipped):
                 "paths_cut_by_bound": tot["cut"],
                 "solver_queries": tot["queries"],
                 "solver_time_s": round(solver_time, 2),
+                "second_solver": {
+                    "solver": "cvc5 binary (SMT-LIB2 export of the VC: path condition and negated claim)",
+                    "vcs_submitted": xc["submitted"],
+                    "same_verdict": xc["agree"],
+                    "no_answer_within_limit": xc["no_answer"],
+                    "different_verdict": len([p for p in problems if p["kind"] == "solver-disagreement"]),
+                    "time_s": round(xc["time_s"], 1),
+                },
                 "solver_unknown": len([p for p in problems if p["kind"] in ("unknown", "vc-unknown")]),
                 "best_effort_jobs_undecided": sorted({p["kind"] + "@" + p["job"] for p in undecided_optional})[:60],
                 "canaries": {"%s/%s" % k: n for k, n in list(canary_total.items())[:40]},
